@@ -17,6 +17,7 @@ import AdaptaVerif.Lemmas.AStarBridge
 import AdaptaVerif.Lemmas.AStarEstimate
 import AdaptaVerif.Lemmas.AStarRoute
 import AdaptaVerif.Lemmas.AStarTotal
+import AdaptaVerif.Lemmas.AStarCost
 namespace AdaptaVerif.Props.C05AStar
 open AdaptaVerif.Model.AStar AdaptaVerif.Lemmas.AStarSpec
 open AdaptaVerif.Lemmas.AStarOpt (bonusOf)
@@ -132,6 +133,21 @@ theorem graph_search_optimal (g : Graph) (hc : g.consistent = true) (heps : g.ep
 example : Lemmas.AStarWitness.lineGraph.consistent = true ∧ Lemmas.AStarWitness.lineGraph.eps = 0 ∧
     (search Lemmas.AStarWitness.lineGraph.problem 5 (init Lemmas.AStarWitness.lineGraph.problem)).cost = some 1 := by
   decide +kernel
+
+/-- **The model's `cost()` is the measure the property speaks of**: for all rational points, a hop p2 → p3
+    with a single heading taken after a hop p1 → p2 with a single heading costs its length plus
+    segmentPenalty × (0 straight | 1 quarter turn | 2 doubling back) — `cost()`'s classification of
+    `M_PI - angleBetween(p1,p2,p3)` (`bendClass`: cross and dot product of the two hop vectors; tied to the
+    C++ by the direct `cost()` calls of class astar-kernels) is exactly the relation of the headings; the first
+    hop of a route costs its length.  (reverseDirectionPenalty = 0, segmentPenalty > 0.) -/
+theorem cost_is_length_plus_bends (g : Graph) (hpen : 0 < g.segPen) (hrev : g.revPen = 0) (dist : Rat)
+    (p1 p2 p3 : Pt) (d1 d2 : AdaptaVerif.Spec.OrthPath.Dir)
+    (h1 : AdaptaVerif.Model.Bends.orthogonalDirection p1 p2 = d1.mask)
+    (h2 : AdaptaVerif.Model.Bends.orthogonalDirection p2 p3 = d2.mask) :
+    costPts g dist (some p1) p2 p3 =
+      dist + (if d2 = d1 then 0 else if d2 = d1.rev then 2 * g.segPen else g.segPen) ∧
+    costPts g dist none p2 p3 = dist :=
+  Lemmas.AStarCost.cost_axis_parallel g hpen hrev dist p1 p2 p3 d1 d2 h1 h2
 
 /-- **libavoid's estimator is not consistent with `cost()`, kind 1: the edge into a cost target.**
     Penalty 10, cost target (0,0) to be entered heading East (`costTarDirs = 2`).  At (0,1), heading
